@@ -3,7 +3,7 @@
 E-enum of the complete decision table: trigger T fixed; alarm ACKNOWLEDGED (A), component acknowledgement (C: DTSTAMP,
 or X-MOZ-LASTACK on a Thunderbird component) and snooze (S: X-MOZ-SNOOZE-TIME) each absent or T + delta,
 delta in {-2h, -1s, 0, +1s, +2h}: every weak ordering of the four instants.  x trigger kind {zoned, UTC, floating,
-date, absolute UTC, absolute floating} x local time zone {unset, by name, by object} x provider x build path {property setters, add() of typed values,
+date, absolute UTC, absolute floating} x local time zone {unset, by name, by object, by an object of the other tz library} x provider x build path {property setters, add() of typed values,
 parsed text} x {1, 2} alarms.  One case = one row over all 6 values of A (so monotonicity in A is checked on the
 observations themselves); monotonicity in C follows from agreement with the (monotone) model in every cell.
 E-hist step per cell: the first alarm's ACKNOWLEDGED is then changed in place to the next value of the menu (or removed) and
@@ -23,7 +23,7 @@ from icalendar.timezone import tzp
 UTC = timezone.utc
 DELTAS = (None, timedelta(hours=-2), timedelta(seconds=-1), timedelta(0), timedelta(seconds=1), timedelta(hours=2))
 KINDS = ("zoned", "utc", "floating", "date", "abs-utc", "abs-floating")  # abs-*: absolute TRIGGER (DATE-TIME)
-LOCAL = ("unset", "name", "object")
+LOCAL = ("unset", "name", "object", "object-other")  # object-other: a tzinfo of the library that is NOT the active provider
 PATHS = ("setters", "add", "parsed")
 LOCAL_ZONE = "Europe/Berlin"
 # T as an instant (floating/date interpreted in LOCAL_ZONE, CEST = +2h on that day)
@@ -89,10 +89,20 @@ def build(case, a_delta):
     return comp, cval, sval, specs
 
 
+def other_lib_zone():
+    if tzp.name == "zoneinfo":
+        import pytz
+        return pytz.timezone(LOCAL_ZONE)
+    import zoneinfo
+    return zoneinfo.ZoneInfo(LOCAL_ZONE)
+
+
 def fresh_first(comp, local):
     alarms = Alarms(comp)
     if local == "name":
         alarms.set_local_timezone(LOCAL_ZONE)
+    elif local == "object-other":
+        alarms.set_local_timezone(other_lib_zone())
     elif local == "object":
         alarms.set_local_timezone(tzp.timezone(LOCAL_ZONE))
     return alarms.times[0]
@@ -122,6 +132,8 @@ def run_case(case, only_a=None):
                 alarms.set_local_timezone(LOCAL_ZONE)
             elif local == "object":
                 alarms.set_local_timezone(tzp.timezone(LOCAL_ZONE))
+            elif local == "object-other":
+                alarms.set_local_timezone(other_lib_zone())
             times = alarms.times
         except Exception as e:  # noqa: BLE001
             fails.append(fail("building-or-times-raises", case, "alarm times", f"{type(e).__name__}: {e}", a_i))
@@ -241,7 +253,7 @@ def replay(case):
 def run(ctx):
     ctx.rule = ("E-enum of the decision table: A, C, S each absent or T+{-2h,-1s,0,+1s,+2h} (6x6x6, every weak ordering incl. "
                 "equalities; S only on Thunderbird-marked components) x trigger kind {zoned, UTC, floating, date, absolute UTC, absolute floating} x local zone "
-                "{unset, by name, by object} x provider x build path {setters, add typed, parsed} x {1,2} alarms. One case = a "
+                "{unset, by name, by object, by an object of the other tz library} x provider x build path {setters, add typed, parsed} x {1,2} alarms. One case = a "
                 "row over all 6 values of A. non-trivial = every row.")
     ctx.bounds = {"deltas": [str(d) for d in DELTAS], "kinds": KINDS, "local": LOCAL, "paths": PATHS}
     ctx.assumptions += ["floating and date triggers are interpreted in the local zone given to Alarms.set_local_timezone "
